@@ -56,6 +56,18 @@ theorem flatMap_length_const {α β} (f : α → List β) (n : Nat) (l : List α
   | cons a t ih => simp [List.flatMap_cons, ih, h, Nat.add_mul]; omega
 
 
+/-- G obligation: `write(p, n)` hands on exactly `n` bytes, `read(n)` returns `n` bytes and moves by `n`, `skip(n)` moves by
+    exactly `n` — in all three classes -/
+theorem gen_raw_counts (k : Kind) (n : Nat) :
+    rawWriteCount k n = n ∧ rawReadCount k n = n ∧ rawReadAdv k n = n ∧ skipAdv k n = n := by
+  cases k <;> simp [rawWriteCount, rawReadCount, rawReadAdv, skipAdv, sbWriteCount, sbrReadCount, sbrReadAdv, sbrSkipAdv,
+    fileWriteCount, fileReadCount, sockSkipCount]
+
+@[simp] theorem rawWriteCount_eq (k : Kind) (n : Nat) : rawWriteCount k n = n := (gen_raw_counts k n).1
+@[simp] theorem rawReadCount_eq (k : Kind) (n : Nat) : rawReadCount k n = n := (gen_raw_counts k n).2.1
+@[simp] theorem rawReadAdv_eq (k : Kind) (n : Nat) : rawReadAdv k n = n := (gen_raw_counts k n).2.2.1
+@[simp] theorem skipAdv_eq (k : Kind) (n : Nat) : skipAdv k n = n := (gen_raw_counts k n).2.2.2
+
 theorem writeAll_append (k : Kind) (e : Endian) (a b : List WOp) :
     writeAll k e (a ++ b) = ((writeAll k (writeAll k e a).1 b).1, (writeAll k e a).2 ++ (writeAll k (writeAll k e a).1 b).2) := by
   induction a generalizing e with
